@@ -18,6 +18,7 @@ func driveScalar(c *ctx) {
 	r := rand.New(rand.NewSource(c.seed))
 	grid := edgeGrid(bigN)
 	vals := append([]*big.Int{}, grid...)
+	vals = append(vals, montPatternValues(r, bigN)...)
 	for i := 0; i < c.scale(40, 400); i++ {
 		vals = append(vals, randBig(r, bigN))
 	}
